@@ -65,7 +65,9 @@ impl ConstraintVal {
             // A named constraint used as an alternative admits what it
             // admits on its own.
             ConstraintValArm::Exact(expected) => match expected.as_ref() {
-                Val::Constraint(inner) => inner.check(val),
+                // (The empty placeholder that stands for a constraint inside its
+                // own definition admits nothing here.)
+                Val::Constraint(inner) => !inner.arms.is_empty() && inner.check(val),
                 _ => val.equal(expected).unwrap_or(false),
             },
         })
